@@ -541,7 +541,7 @@ def _run(tier, seed, log, model_runs=True, enlarged=False):
                                    "(coq/theories/Alias.v, over which C12_no_shared_object and C12_object_frame are proved) builds for the same calls: "
                                    "objects per sort, records per container, stray _bundle / parent pointers, objects shared between handles; "
                                    "non-trivial = a deriving call followed by a mutator",
-                         extra_cases=fixed_programs(),
+                         extra_cases=fixed_programs() + __import__('harness.progs', fromlist=['x']).same_text_programs((), derive=True, memberships=True),
                          theorem_note="C12_frame over Interp.step; C12_no_shared_object, C12_object_frame over Alias.astep")
 
 
